@@ -243,7 +243,7 @@ class BaseOPB:
 If the formula has already at least `new_value` variables, this does
 not have any effect."""
         non_negative_int(new_value, 'new_value')
-        self._numvar = max(self._numvar, new_value)
+        self._numvar = max(self._numvar, int(new_value))
 
     def debug(self, allow_opposite=False, allow_repetition=False):
         """Check if the formula representation is correct
